@@ -28,6 +28,7 @@
 import RoProofs.SubjectsUnicastSpec
 import RoProofs.Atomic
 import RoProofs.SubjectsMicro
+import RoProofs.SubjectsX
 import RoGen.SubjectLocks
 namespace Ro.C10
 open Ro Ro.Subj Ro.Subj.Spec
@@ -195,6 +196,31 @@ theorem observers_dropped_at_unsubscription (k : Kind α) (ops : List (Op α)) (
   | replay cap => rw [show (Kind.replay cap : Kind α).step = multiStep (replayP cap) from replayStep_eq cap]; exact unsubscribe_drops_multi _ hI i
   | async => rw [show (Kind.async : Kind α).step = multiStep asyncP from asyncStep_eq]; exact unsubscribe_drops_multi _ hI i
   | unicast cap => exact unsubscribe_drops_unicast cap (uinv_runFrom cap ops _ (uinv_init cap)) i
+
+/-! ### subjects subscribed with a ready-made Subscriber (RoModel/SubjectsX.lean; kind=subjx) -/
+
+/-- every state reached through plain operations and subscriptions made with a closed / self-closing Subscriber keeps
+    the registration invariant of its kind (registered ⇒ used, open, teardown pending; no duplicates; nobody registered
+    once terminated; unicast: at most one observer) -/
+theorem subjx_invariant (k : Kind Int) (xs : List XOp) : Inv (runX k xs).1 := (kinv_runX k xs).toInv
+
+theorem subjx_unicast_one_at_a_time (cap : Option Nat) (xs : List XOp) : (runX (.unicast cap) xs).1.observers.length ≤ 1 :=
+  UInv.one (kinv_runX (.unicast cap) xs)
+
+/-- a Subscriber that is already closed when it is handed to Subscribe is not registered when Subscribe returns — whatever
+    came before, for every subject kind: the subject goes on as if it had never come -/
+theorem dead_subscriber_never_registered (k : Kind Int) (xs : List XOp) (i : Nat) (c : Ctx) :
+    i ∉ (runX k (xs ++ [.dead i c])).1.observers := by
+  rw [runX_snoc]
+  have hk := kinv_runX k xs
+  generalize runX k xs = st at hk
+  obtain ⟨s, armed⟩ := st
+  exact Ro.Subj.unsubscribe_drops k (kinv_rewrite k (kinv_step k hk _) _ _ _) i
+
+-- non-vacuity: a replay subject with two values; the dead subscriber is handed both (refused: dropped), is not registered,
+-- and the next subscriber is served as usual
+example : let s := (runX (.replay (some 2)) [.plain (.next {} 1), .plain (.next {} 2), .dead 0 {}, .plain (.subscribe 1 {})]).1
+    s.observers = [1] ∧ (s.sub 0).got = [] ∧ s.drops.length = 2 ∧ (s.sub 1).got.length = 2 := by decide
 
 /-- **unicast admits one subscriber at a time** -/
 theorem unicast_one_at_a_time (cap : Option Nat) (ops : List (Op α)) :
@@ -371,6 +397,9 @@ end Ro.C10
 #print axioms Ro.C10.observers_nodup
 #print axioms Ro.C10.observers_dropped_at_termination
 #print axioms Ro.C10.observers_dropped_at_unsubscription
+#print axioms Ro.C10.subjx_invariant
+#print axioms Ro.C10.subjx_unicast_one_at_a_time
+#print axioms Ro.C10.dead_subscriber_never_registered
 #print axioms Ro.C10.unicast_one_at_a_time
 #print axioms Ro.C10.unsubscribeAll_is_noop
 #print axioms Ro.C10.atomic_linearizable
